@@ -20,6 +20,12 @@ func TestC18Rapid(t *testing.T) {
 	c := coll("C18")
 	c.rule(ruleC18)
 	var last *Replay
+	// rapid.Check ends the test goroutine on failure (FailNow): report from a deferred call
+	defer func() {
+		if last != nil {
+			violation(t, last)
+		}
+	}()
 	k := 0
 	rapid.Check(t, func(rt *rapid.T) {
 		tm := genTerm(termOpts{maxDepth: 5, panics: true}).Draw(rt, "term")
@@ -47,9 +53,6 @@ func TestC18Rapid(t *testing.T) {
 			rt.Fatalf("%s", rep.What)
 		}
 	})
-	if last != nil {
-		violation(t, last)
-	}
 }
 
 // exhaustive: every script position of every small term replaced by a panic, one at a time
@@ -217,6 +220,12 @@ func TestC14Interleavings(t *testing.T) {
 	c := coll("C14")
 	c.rule(ruleC14)
 	var last *Replay
+	// rapid.Check ends the test goroutine on failure (FailNow): report from a deferred call
+	defer func() {
+		if last != nil {
+			violation(t, last)
+		}
+	}()
 	n := 0
 	rapid.Check(t, func(rt *rapid.T) {
 		k := rapid.IntRange(2, 3).Draw(rt, "k")
@@ -277,9 +286,6 @@ func TestC14Interleavings(t *testing.T) {
 			c.sample(map[string]any{"terms": []string{terms[0].String(), terms[1].String()}, "histories": []string{opsString(hist[0]), opsString(hist[1])}, "k": k})
 		}
 	})
-	if last != nil {
-		violation(t, last)
-	}
 	c.markExhaustive("per drawn tuple: all interleavings of k iterators x m calls each (k=2,m=4: 70; k=3,m=3: 1680; thorough k=3,m=4: 34650)")
 	c.sample(map[string]any{"note": "schedules enumerated exhaustively per tuple", "total_schedules": n})
 }
@@ -289,6 +295,12 @@ func TestC14Parallel(t *testing.T) {
 	c := coll("C14")
 	c.rule("parallel: 4..8 goroutines each consuming its own iterator (same generator term) concurrently; every transcript must equal the solo transcript and the race detector must stay silent")
 	var last *Replay
+	// rapid.Check ends the test goroutine on failure (FailNow): report from a deferred call
+	defer func() {
+		if last != nil {
+			violation(t, last)
+		}
+	}()
 	rapid.Check(t, func(rt *rapid.T) {
 		tm := genTerm(termOpts{maxDepth: 5}).Draw(rt, "term")
 		ops := genOps(10).Draw(rt, "ops")
@@ -317,7 +329,174 @@ func TestC14Parallel(t *testing.T) {
 			}
 		}
 	})
-	if last != nil {
-		violation(t, last)
+}
+
+// ---- C14: one Seq value started by several iterators ------------------------------------------------
+// The public API allows `var cycle = seq.Loop(..); func Cycle() Iterator { return seq.Start(cycle) }`:
+// every Start of the same Seq value must give an independent iterator (For allocates its loop state
+// per run of the Seq). The terms are stateless (no counters, no scripts), so each iterator's results
+// depend only on its own position.
+
+func drawStateless(t *rapid.T, depth int, label string) *Term {
+	kinds := []string{"normal", "break", "continue", "return", "retval"}
+	if depth < 4 {
+		kinds = append(kinds, "bind", "bind", "bind", "delay", "combine", "combine", "loop", "loop", "forpost") // no bindrecv: its thunk writes the (shared) environment
 	}
+	k := rapid.SampledFrom(kinds).Draw(t, label+".k")
+	switch k {
+	case "retval":
+		return &Term{K: k, Val: &Val{Const: 7}}
+	case "bind":
+		return &Term{K: k, Val: &Val{}, A: drawStateless(t, depth+1, label+"a")}
+	case "bindrecv":
+		return &Term{K: k, Val: &Val{}, A: drawStateless(t, depth+1, label+"a")}
+	case "delay":
+		return &Term{K: k, A: drawStateless(t, depth+1, label+"a")}
+	case "combine":
+		return &Term{K: k, A: drawStateless(t, depth+1, label+"a"), B: drawStateless(t, depth+1, label+"b")}
+	case "loop", "forpost":
+		// the body must suspend (a bind) before it can complete, otherwise `for {}`
+		body := &Term{K: "bind", Val: &Val{}, A: drawStateless(t, depth+1, label+"a")}
+		if k == "loop" {
+			return &Term{K: "loop", A: body}
+		}
+		return &Term{K: "for", A: body} // For(nil, nil, body)
+	}
+	return &Term{K: k}
+}
+
+func sharedResults(its []seq.Generator[int], hist [][]Op, order []int) [][]string {
+	out := make([][]string, len(its))
+	pos := make([]int, len(its))
+	for _, i := range order {
+		op := hist[i][pos[i]]
+		pos[i]++
+		var res string
+		func() {
+			defer func() {
+				if r := recover(); r != nil {
+					res = fmt.Sprintf("PANIC %v", r)
+				}
+			}()
+			switch op.K {
+			case "mn":
+				res = fmt.Sprint(its[i].MoveNext())
+			case "cur":
+				res = fmt.Sprint(its[i].Current())
+			case "send":
+				v, ok := its[i].Send(op.V)
+				res = fmt.Sprint(v, ok)
+			default:
+				res = "-"
+			}
+		}()
+		out[i] = append(out[i], op.String()+" -> "+res)
+	}
+	return out
+}
+
+func TestC14SharedSeq(t *testing.T) {
+	c := coll("C14")
+	c.rule("one Seq value (stateless term) started by k<=3 iterators: all interleavings of their histories; each iterator's results must equal those of a lone iterator over a freshly built Seq; also 4 goroutines sharing one Seq under -race")
+	var last *Replay
+	// rapid.Check ends the test goroutine on failure (FailNow): report from a deferred call
+	defer func() {
+		if last != nil {
+			violation(t, last)
+		}
+	}()
+	rapid.Check(t, func(rt *rapid.T) {
+		tm := drawStateless(rt, 0, "t")
+		number(tm)
+		k := rapid.IntRange(2, 3).Draw(rt, "k")
+		m := 4
+		if k == 3 {
+			m = 3
+		}
+		var hist [][]Op
+		for i := 0; i < k; i++ {
+			hist = append(hist, rapid.SliceOfN(rapid.SampledFrom([]Op{{K: "mn"}, {K: "mn"}, {K: "mn"}, {K: "cur"}, {K: "send", V: 2}}), m, m).Draw(rt, fmt.Sprint("h", i)))
+		}
+		// solo: fresh Seq per iterator
+		var want [][]string
+		for i := 0; i < k; i++ {
+			e := newEnv(1 << 30)
+			g := seq.Start(e.build(tm)).(seq.Generator[int])
+			order := make([]int, m)
+			w := sharedResults([]seq.Generator[int]{g}, [][]Op{hist[i]}, order)
+			want = append(want, w[0])
+		}
+		counts := make([]int, k)
+		for i := range counts {
+			counts[i] = m
+		}
+		yields := 0
+		for _, w := range want {
+			for _, l := range w {
+				if strings.HasSuffix(l, "true") {
+					yields++
+				}
+			}
+		}
+		schedules(counts, func(order []int) {
+			e := newEnv(1 << 30)
+			shared := e.build(tm) // ONE Seq value
+			its := make([]seq.Generator[int], k)
+			for i := range its {
+				its[i] = seq.Start(shared).(seq.Generator[int])
+			}
+			got := sharedResults(its, hist, order)
+			c.eval(fmt.Sprint("shared", tm.JSON(), hist, order), yields >= 3, "shared-seq")
+			for i := range got {
+				if j, g, w := diff(got[i], want[i]); j >= 0 {
+					last = &Replay{Property: "C14", Kind: "shared-seq", Term: tm, Input: map[string]any{"histories": hist, "schedule": append([]int{}, order...)},
+						What: fmt.Sprintf("one Seq started %d times, schedule %v: iterator %d step %d is %q, alone it is %q (term %s)", k, order, i, j, g, w, tm), Got: got[i], Want: want[i]}
+					rt.Fatalf("%s", last.What)
+				}
+			}
+		})
+	})
+}
+
+func TestC14ParallelSharedSeq(t *testing.T) {
+	c := coll("C14")
+	var last *Replay
+	// rapid.Check ends the test goroutine on failure (FailNow): report from a deferred call
+	defer func() {
+		if last != nil {
+			violation(t, last)
+		}
+	}()
+	rapid.Check(t, func(rt *rapid.T) {
+		tm := drawStateless(rt, 0, "t")
+		number(tm)
+		ops := rapid.SliceOfN(rapid.SampledFrom([]Op{{K: "mn"}, {K: "mn"}, {K: "cur"}}), 4, 12).Draw(rt, "ops")
+		e0 := newEnv(1 << 30)
+		want := sharedResults([]seq.Generator[int]{seq.Start(e0.build(tm)).(seq.Generator[int])}, [][]Op{ops}, make([]int, len(ops)))[0]
+		e := newEnv(1 << 30)
+		shared := e.build(tm)
+		const g = 4
+		outs := make([][]string, g)
+		var wg sync.WaitGroup
+		start := make(chan struct{})
+		for i := 0; i < g; i++ {
+			wg.Add(1)
+			go func(i int) {
+				defer wg.Done()
+				it := seq.Start(shared).(seq.Generator[int])
+				<-start
+				outs[i] = sharedResults([]seq.Generator[int]{it}, [][]Op{ops}, make([]int, len(ops)))[0]
+			}(i)
+		}
+		close(start)
+		wg.Wait()
+		c.eval(fmt.Sprint("parshared", tm.JSON(), ops), true, "parallel-shared-seq")
+		for i := range outs {
+			if j, gg, w := diff(outs[i], want); j >= 0 {
+				last = &Replay{Property: "C14", Kind: "parallel-shared-seq", Term: tm, Ops: ops,
+					What: fmt.Sprintf("goroutine %d sharing one Seq: step %d is %q, alone it is %q (term %s)", i, j, gg, w, tm), Got: outs[i], Want: want}
+				rt.Fatalf("%s", last.What)
+			}
+		}
+	})
 }
